@@ -181,6 +181,21 @@ def pool_get(ex, args, ins):
 
 
 def pool_put(ex, args, ins):
+    """Put: no-op for the values, but the pool protocol is checked: an object must not be put twice (it would be handed
+    to two goroutines at once)"""
+    from .exec import Obligation
+    v = args[1] if len(args) > 1 else None
+    p = v.val if isinstance(v, Iface) else v
+    for g, q in cases_of(p):
+        if not isinstance(q, Ptr):
+            continue
+        k = ("POOLPUT", q.obj)
+        prev = ex.store.get(k, False)
+        if prev is not False:
+            ex.ctx.obligations.append(Obligation("sync.Pool protocol: the same object is put back twice (shared between two later Get calls)",
+                                                 b_and(ex.guard, g, prev), "assert", ins.get("pos", "") if ins else ""))
+        from .values import b_or
+        ex.write(k, b_or(prev, b_and(ex.guard, g)))
     return ()
 
 
